@@ -136,6 +136,10 @@ ByVal(e, v) == IF v \in Vals(e.map) THEN MemR(e, NameOf(e.map, v)) ELSE Exc("Key
 (* any number equal to it (True, 1.0) or as a member with that value - also a member of another enum, whatever    *)
 (* its name (dict lookup: hash and == of a member are those of its value).  Numeric strings are not values.       *)
 (* The attribute 'name' of an enum is its display name, not a member.                                             *)
+(* What the docstring shows are names and ints only.  For Enum('x', a=1):  (True) and (1.0) give member a,  ('1')  *)
+(* and (1.5) raise KeyError, (other_enum.q) with q = 1 gives member a.  None of this is documented; it follows    *)
+(* from Enum being a dict and is kept as the specification because the answer is always THE member whose value    *)
+(* equals the key as a number (LookupTotal), never a wrong member and never another exception class.              *)
 Lookup(e, how, key) ==
   LET miss == IF how = "attr" THEN "AttributeError" ELSE "KeyError" IN
   CASE key.ty = "str"    -> IF how = "attr" /\ key.s = "name" THEN StrR(e.nm)
